@@ -490,3 +490,110 @@ func H_SELF_compile(i int) {
 	verifCover("self-test compiled")
 	verifCover("self-test compile " + name + " " + sum)
 }
+
+const selfWildcardSrc = `
+stage MAKE(
+    in  int    seed,
+    out int    id,
+    out string name,
+    src comp   "make",
+)
+
+stage SINK(
+    in  int    id,
+    in  string name,
+    in  int    extra,
+    out int    id,
+    out string name,
+    src comp   "sink",
+)
+
+pipeline INNER(
+    in  int    seed,
+    out int    id,
+    out string name,
+)
+{
+    call MAKE(
+        * = self,
+    )
+
+    call SINK(
+        extra = 3,
+        *     = MAKE,
+    )
+
+    return (
+        * = SINK,
+    )
+}
+
+pipeline TOP(
+    in  int    seed,
+    out int    id,
+    out string name,
+)
+{
+    call INNER(
+        * = self,
+    )
+
+    return (
+        * = INNER,
+    )
+}
+
+call TOP(
+    seed = 4,
+)
+`
+
+// selfGraph compiles a program and returns the rendering mrp records as
+// _mrosource together with the description of its resolved call graph.
+func selfGraph(src []byte) (string, string, error) {
+	var parser Parser
+	text, _, ast, err := parser.ParseSourceBytes(src, "/m/self.mro", nil, false)
+	if err != nil {
+		return "", "", err
+	}
+	if ast.Call != nil {
+		if _, ok := ast.Callables.Table[ast.Call.DecId].(*Pipeline); ok {
+			g, err := ast.MakePipelineCallGraph("ID.self.", ast.Call)
+			if err != nil {
+				return text, "", err
+			}
+			return text, selfDescribe(g), nil
+		}
+	}
+	return text, "", nil
+}
+
+// H_C09_expandedRecompiles(i): the rendering of a compiled program which mrp
+// records as _mrosource (and compiles on its own when it re-attaches to the
+// pipestance), for the repository's include-free test programs and a fixture
+// with wildcard bindings in calls and returns at two levels.
+//
+//	C09: the rendering compiles on its own, is a fixed point, and resolves to
+//	     the same call graph (every node's kind, inputs, outputs, disabling
+//	     conditions and fork roots).
+func H_C09_expandedRecompiles(i int) {
+	var src []byte
+	if i < len(selfCompileFiles) {
+		src = verifRepoFile(selfCompileFiles[i])
+	} else {
+		src = []byte(selfWildcardSrc)
+	}
+	text, graph, err := selfGraph(src)
+	if err != nil {
+		verifCover("expanded rendering: fixture does not compile")
+		return
+	}
+	text2, graph2, err := selfGraph([]byte(text))
+	verifCover("expanded rendering recompiled")
+	verifAssert(err == nil, "C09: the rendering of a compiled program which mrp records compiles on its own")
+	if err != nil {
+		return
+	}
+	verifAssert(text2 == text, "C09: the recorded rendering of a compiled program is a fixed point")
+	verifAssert(graph2 == graph, "C09: the recorded rendering of a compiled program resolves to the same call graph")
+}
